@@ -28,6 +28,83 @@ type voBehaviour struct {
 	Steps   []voStep `json:"steps"`
 	Free    bool     `json:"free"`
 	Rounds  int      `json:"rounds"`
+	Burst   int      `json:"burst"` // > 0: that many goroutines stamp descriptions against one origin at once
+	Armed   []bool   `json:"armed"` // recompute runs: offer i is generated while the application changes a transceiver
+}
+
+// voHookTrack is a local track of the application whose StreamID (read while its section is written)
+// can change another transceiver: CreateOffer then finds the description outdated and generates it again.
+type voHookTrack struct {
+	*TrackLocalStaticSample
+	armed atomic.Bool
+	hook  func()
+}
+
+func (s *voHookTrack) StreamID() string {
+	if s.armed.CompareAndSwap(true, false) {
+		s.hook()
+	}
+	return s.TrackLocalStaticSample.StreamID()
+}
+
+// voRecompute: sequential offers of one connection, some of them recomputed inside CreateOffer.
+func voRecompute(t *testing.T, tr *vkTrace, bh voBehaviour) {
+	t.Helper()
+	tr.Reset(bh.ID)
+	pc, err := NewPeerConnection(Configuration{})
+	if err != nil {
+		t.Fatal(err)
+	}
+	defer func() { _ = pc.Close() }()
+	// transceivers described before the audio sender; each armed offer stops (or re-directs) one of them
+	var videos []*RTPTransceiver
+	for i := 0; i < len(bh.Armed)+1; i++ {
+		v, e := pc.AddTransceiverFromKind(RTPCodecTypeVideo, RTPTransceiverInit{Direction: RTPTransceiverDirectionRecvonly})
+		if e != nil {
+			t.Fatal(e)
+		}
+		videos = append(videos, v)
+	}
+	static, err := NewTrackLocalStaticSample(RTPCodecCapability{MimeType: MimeTypeOpus}, "audio", "stream")
+	if err != nil {
+		t.Fatal(err)
+	}
+	next := 0
+	track := &voHookTrack{TrackLocalStaticSample: static}
+	track.hook = func() {
+		done := make(chan struct{})
+		go func() { // another goroutine of the application, while CreateOffer is at work
+			if next < len(videos) {
+				_ = videos[next].Stop()
+				next++
+			}
+			close(done)
+		}()
+		<-done
+	}
+	if _, err = pc.AddTrack(track); err != nil {
+		t.Fatal(err)
+	}
+	var base uint64
+	for n, armed := range bh.Armed {
+		start := tr.Emit2(vkM{"ev": "start", "t": bh.ID, "who": "seq", "n": n, "sig": "start"})
+		track.armed.Store(armed)
+		d, e := pc.CreateOffer(nil)
+		track.armed.Store(false)
+		line := vkM{"ev": "call", "t": bh.ID, "who": "seq", "n": n, "start": start, "ok": e == nil, "sid": "", "vrel": 0, "kind": "CreateOffer",
+			"sig": fmt.Sprintf("CreateOffer(recomputed=%v)", armed)}
+		if e == nil {
+			p := &sdp.SessionDescription{}
+			if p.UnmarshalString(d.SDP) == nil {
+				if base == 0 {
+					base = p.Origin.SessionVersion
+				}
+				line["sid"] = strconv.FormatUint(p.Origin.SessionID, 10)
+				line["vrel"] = int(int64(p.Origin.SessionVersion - base)) //nolint:gosec
+			}
+		}
+		tr.Emit(line)
+	}
 }
 
 func TestVerifOrigin(t *testing.T) {
@@ -46,8 +123,72 @@ func TestVerifOrigin(t *testing.T) {
 	t.Logf("VERIF_STAT behaviours=%d not_driven=%d", len(behaviours), notDriven)
 }
 
+// voBurst: the step that CreateOffer / CreateAnswer share (updateSDPOrigin) under the densest concurrency
+// there is: goroutines that do nothing else. One line with every version handed out.
+func voBurst(tr *vkTrace, bh voBehaviour) {
+	tr.Reset(bh.ID)
+	origin := &sdp.Origin{}
+	first, err := sdp.NewJSEPSessionDescription(false) // what CreateOffer / CreateAnswer start from
+	if err != nil {
+		return
+	}
+	updateSDPOrigin(origin, first) // fixes the session id, like the first description of a connection
+	base := first.Origin.SessionVersion
+	each := 300
+	out := make([][]int, bh.Burst)
+	sids := make([]map[uint64]bool, bh.Burst)
+	start := make(chan struct{})
+	var wg sync.WaitGroup
+	for g := 0; g < bh.Burst; g++ {
+		wg.Add(1)
+		go func(g int) {
+			defer wg.Done()
+			sids[g] = map[uint64]bool{}
+			<-start
+			for i := 0; i < each; i++ {
+				d, e := sdp.NewJSEPSessionDescription(false)
+				if e != nil {
+					continue
+				}
+				updateSDPOrigin(origin, d)
+				out[g] = append(out[g], int(int64(d.Origin.SessionVersion-base))) //nolint:gosec
+				sids[g][d.Origin.SessionID] = true
+			}
+		}(g)
+	}
+	close(start)
+	wg.Wait()
+	all, ids, increasing := []int{}, map[uint64]bool{first.Origin.SessionID: true}, true
+	for g := range out {
+		for i, v := range out[g] {
+			all = append(all, v)
+			if i > 0 && out[g][i-1] >= v {
+				increasing = false // one caller's own descriptions, in the order it made them
+			}
+		}
+		for id := range sids[g] {
+			ids[id] = true
+		}
+	}
+	distinct := map[int]bool{}
+	for _, v := range all {
+		distinct[v] = true
+	}
+	tr.Emit(vkM{"ev": "burst", "t": bh.ID, "who": "", "n": len(all), "start": 0, "ok": true, "sid": "", "vrel": 0, "kind": "burst",
+		"distinct": len(distinct), "sessionIds": len(ids), "perCallerIncreasing": increasing,
+		"sig": fmt.Sprintf("burst(callers=%d)", bh.Burst)})
+}
+
 func voRun(t *testing.T, tr *vkTrace, bh voBehaviour) bool {
 	t.Helper()
+	if bh.Burst > 0 {
+		voBurst(tr, bh)
+		return true
+	}
+	if len(bh.Armed) > 0 {
+		voRecompute(t, tr, bh)
+		return true
+	}
 	tr.Reset(bh.ID)
 	pc, err := NewPeerConnection(Configuration{})
 	if err != nil {
